@@ -64,28 +64,54 @@ type instruction struct {
 }
 
 func newInstruction(ins parser.Instruction) *instruction {
+	effects := dropJumpsToNext(ins)
+
 	return &instruction{
 		typ:      ins.Type,
 		origAddr: ins.Addr,
 		bytes:    ins.Bytes,
 		details:  ins.Details,
 
-		effects:     ins.Effects,
+		effects:     effects,
 		jumpTargets: jumps(ins),
 
 		currAddr: ins.Addr,
 
-		inRegs:  inputRegs(ins.Effects),
-		outRegs: outputRegs(ins.Effects),
+		inRegs:  inputRegs(effects),
+		outRegs: outputRegs(effects),
 
-		loads:  loads(ins.Effects),
-		stores: stores(ins.Effects),
+		loads:  loads(effects),
+		stores: stores(effects),
 
 		depsFwd:  make(insSet, 5),
 		depsBack: make(insSet, 5),
 
 		blockIdx: -1,
 	}
+}
+
+// dropJumpsToNext removes those writes of the instruction pointer which set it
+// to the address following the instruction. This is what happens anyway when
+// an instruction does not jump, but unlike the implicit fall-through, such a
+// write would stay bound to the original address of the instruction once the
+// instruction is moved.
+func dropJumpsToNext(ins parser.Instruction) []expr.Effect {
+	effects := make([]expr.Effect, 0, len(ins.Effects))
+	for _, ef := range ins.Effects {
+		if e, ok := ef.(expr.RegStore); ok && e.Key() == expr.IPKey {
+			c, ok := exprtransform.ConstFold(e.Value()).(expr.Const)
+			if ok {
+				addr, _ := expr.ConstUint[model.Addr](c)
+				if addr == ins.End() {
+					continue
+				}
+			}
+		}
+
+		effects = append(effects, ef)
+	}
+
+	return effects
 }
 
 // Jumps extracts all expressions the instruction can jump to. Jumps to address
